@@ -20,12 +20,16 @@ var c15Names = [][3]string{
 	{"x1", "x10", "x100"}, {"lbl", "lbl2", "lbl22"}, {"l", "ll", "lll"}, {"label_with_a_rather_long_name_of_40_chars", "label_with_a_rather_long_name_of_40_charz", "label_with_a_rather_long_name_of_40_cha"},
 	{"fin", "fin2", "FIN"}, {"entry", "entry_", "entry0"}, {"Q", "QQ", "q"}, {"z9", "z", "z99"}, {"loop1", "loop", "loop11"},
 	{"msg", "msgend", "msglen"}, {"b", "a", "c"}, {"beta", "alpha", "gamma"},
+	// the EQU name inside a label name; long names that are inner parts of one another
+	{"start", "stack_top", "top"}, {"b", "aa", "a"}, {"_inthandler21", "_inthandler2", "k"}, {"_asm_inthandler21", "asm_inthand", "hand"},
 }
 
 var c15Programs = []string{
 	"E EQU 5 ; ORG 0x7c00 ; JMP A ; DB 0x90,0x90 ; A: ; MOV AL,E ; CMP AL,0 ; JE B ; CALL A ; MOV SI,B ; DW A ; JMP A ; B: ; HLT ; DB E,E+1",
 	"ORG 0x7c00 ; A: ; MOV AX,A ; MOV BX,B ; E EQU 0x11 ; MOV CL,E ; JNZ A ; B: ; DW B,A ; DB E",
 	"[BITS 32] ; E EQU 4 ; A: ; MOV EAX,[EBX+E*2] ; MOV ECX,A ; B: ; DD A,B ; MOV EDX,B",
+	// the EQU is an alias of a label defined later (its value stays symbolic through pass 1)
+	"ORG 0x7c00 ; E EQU B ; MOV SP,E ; JMP A ; A: ; HLT ; JMP A ; B: ; DB 0x55",
 }
 
 func c15Render(prog string, n [3]string) string {
